@@ -570,6 +570,10 @@ def run(ctx, load):
     check_registered_before_use(P, ctx)
     check_finalise_unregisters(P, ctx, 'C06.finalise-unregisters')
     check_del_routes(P, ctx)
+    # a collection finalises only what is unreachable: the marker's lookup and marking evaluated on small registries (shared with C17)
+    from .rules_c17 import report_registry
+    report_registry(P, ctx, 'C06.marking-finds-the-registered', ('mem', 'mark'))
+    ctx.floor('C06.marking-finds-the-registered', 2)
     # every standard / root allocation is registered (an object that is never registered is never finalised)
     from .rules_c01 import check_root_flag
     before = len(ctx.obs)
